@@ -121,7 +121,8 @@ def _replay(pid, replay, binary, wd):
     for kind, cases in by_kind.items():
         f = os.path.join(wd, "replay_%s.jsonl" % kind)
         vf.jsonl_write(f, cases)
-        args = ["-pars", ",".join(str(i) for i in range(1, 17)), "-reps", "4", "-seed", str(vf.seed())] if kind == "ws" else []
+        args = ["-pars", ",".join(str(i) for i in range(1, 17)), "-reps", "4", "-holdpars", "2,4,16",
+                "-seed", str(vf.seed())] if kind == "ws" else []
         mism, _ = _drive(binary, kind, f, args)
         total += len(cases)
         _feed(verdict, mism, accept=_ACCEPT[pid])
@@ -335,15 +336,20 @@ CONSTANTS
   NFilesSet = {%(n)s}
   Kinds = {%(kinds)s}
   MaxImports = %(maximports)d
-  AllowSelf = TRUE
-  MissingChoices = {TRUE, FALSE}
+  AllowSelf = %(allowself)s
+  MissingChoices = {%(missing)s}
   RevChoices = {%(rev)s}
-  OnlyCyclic = FALSE
+  InWsChoices = {TRUE, FALSE}
+  OnlyPinned = %(pinned)s
 INVARIANTS Export
 CHECK_DEADLOCK FALSE
 """
 
-ALL_KINDS = '"ok", "unknown", "dup", "syntax", "shared"'
+ALL_KINDS = '"ok", "unknown", "dup", "syntax", "shared", "extclash"'
+# the shape in which only the ORDER of lowering two imports can differ between schedules: a workspace
+# file importing two files that are not in the workspace and clash (symbol name / extension number)
+PINNED = dict(n="3", kinds='"ok", "shared", "extclash"', maximports=2, allowself="FALSE", missing="FALSE", pinned="TRUE")
+GENERAL = dict(kinds=ALL_KINDS, maximports=2, allowself="TRUE", missing="TRUE, FALSE", pinned="FALSE")
 
 
 def _ws_select(path_in, path_out, rng, n_acyclic, n_cyclic):
@@ -430,18 +436,22 @@ def run_c36(pid, tier, replay):
     if thorough:
         ws_runs = [
             # (name, cfg params, simulate, depth, #acyclic, #cyclic)
-            ("n2", dict(n="2", kinds=ALL_KINDS, maximports=2, rev="FALSE, TRUE"), None, None, 10 ** 6, 120),
-            ("n34", dict(n="3, 4", kinds=ALL_KINDS, maximports=2, rev="FALSE, TRUE"), 600, 6, 300, 60),
+            ("pinned", dict(PINNED, rev="FALSE, TRUE"), None, None, 10 ** 6, 0),
+            ("n2", dict(GENERAL, n="2", rev="FALSE, TRUE"), None, None, 450, 80),
+            ("n34", dict(GENERAL, n="3, 4", rev="FALSE, TRUE"), 600, 6, 300, 60),
         ]
         pars = ",".join(str(i) for i in range(1, 17))
+        holdpars = "2,4,16"
         reps, wsworkers = 2, 12
     else:
         ws_runs = [
-            ("n234", dict(n="2, 3, 4", kinds=ALL_KINDS, maximports=2, rev="FALSE, TRUE"), 80, 6, 70, 15),
+            ("pinned", dict(PINNED, rev="FALSE"), None, None, 10 ** 6, 0),
+            ("n234", dict(GENERAL, n="2, 3, 4", rev="FALSE, TRUE"), 80, 6, 50, 10),
         ]
-        pars = "1,2,3,4,6,8,12,16"
+        pars = "1,2,4,8,16"
+        holdpars = "4,16"
         reps, wsworkers = 2, 8
-    ws_cases = ws_compiles = ws_cyclic = ws_diff = 0
+    ws_cases = ws_compiles = ws_cyclic = ws_diff = ws_hold = ws_warm = ws_pinned = 0
     shapes = set()
     for name, p, sim, depth, na, nc in ws_runs:
         allfile = os.path.join(wd, "cases_ws_%s_all.jsonl" % name)
@@ -454,8 +464,14 @@ def run_c36(pid, tier, replay):
         sel = _ws_select(allfile, selfile, rng, na, nc)
         for c in sel:
             shapes.add(json.dumps(c["shape"], sort_keys=True))
-        mism, st = _drive(binary, "ws", selfile, ["-pars", pars, "-reps", str(reps), "-workers", str(wsworkers),
-                                                  "-seed", str(vf.seed())], timeout=3000)
+        mism, st = _drive(binary, "ws", selfile, ["-pars", pars, "-reps", str(reps), "-holdpars", holdpars,
+                                                  "-workers", str(wsworkers), "-seed", str(vf.seed())], timeout=3000)
+        ws_hold += st["hold_runs"]
+        ws_warm += st["warm_runs"]
+        ws_pinned += st["imported_only_clash_cases"]
+        if st["hold_runs"] and st["hold_timeouts"] * 2 > st["hold_runs"]:
+            raise vf.MachineryError("schedule control ineffective: %d of %d held-back opens timed out" %
+                                    (st["hold_timeouts"], st["hold_runs"]))
         _feed(verdict, mism, accept=_ACCEPT[pid])
         ws_cases += st["cases"]
         ws_compiles += st["compiles"]
@@ -483,12 +499,17 @@ def run_c36(pid, tier, replay):
                 "by step",
         "samples": samples, "exhaustive": True, "bounds": bounds,
         "schedule_half": {"workspaces": ws_cases, "cyclic": ws_cyclic, "compiles": ws_compiles,
-                          "workspaces_with_differing_reports": ws_diff},
+                          "workspaces_with_differing_reports": ws_diff,
+                          "imported_only_clash_workspaces": ws_pinned,
+                          "compiles_with_one_file_lowered_last": ws_hold, "compiles_on_warm_cache": ws_warm},
     }, ["Report.tla's Canonicalize is the documented contract (six sort keys, tagged duplicates on the same primary "
         "span dropped keeping the greatest); where the documentation leaves the order open (full-key ties) only "
         "order-independence, idempotence and the sequence of documented keys are required",
         "schedule half: schedules are whatever the Go runtime produces at parallelism 1..16 plus seed-controlled "
-        "delays in the Opener on odd repetitions; no executor model here (IncExec.tla belongs to C33/C34)",
+        "delays in the Opener on odd repetitions, plus, for acyclic workspaces, for every compiled file X: runs in "
+        "which X is lowered last (the Opener holds back X's private helper import until Executor.Keys shows the IR "
+        "queries of all files that do not depend on X as completed) and warm-cache runs (Run(IR X) first, then the "
+        "workspace, same executor and session); no executor model here (IncExec.tla belongs to C33/C34)",
         "workspace sample is seed-selected from the TLC-enumerated / -simulated universe; all acyclic 2-file "
         "workspaces are replayed in the thorough tier"],
         time.time() - t0, violations=len(verdict.violations), known=verdict.known_hits)
